@@ -5,6 +5,7 @@ Model: `IrVerif/Model/Kernel.lean`; invariant `WF` (six clauses, `IrVerif/Lemmas
 -/
 import IrVerif.Lemmas.KernelOps
 import IrVerif.Lemmas.KernelSeq
+import IrVerif.Lemmas.KernelFaithful
 namespace IrVerif.Kernel
 
 /-- the empty world is well formed -/
@@ -13,6 +14,20 @@ theorem C01_init : WF World.empty := WF_empty
 /-- **C01_step**: every operation of the alphabet preserves the invariant — for every argument
 (also invalid ones) and whatever the outcome (`ok` or `raised`). -/
 theorem C01_step (w : World) (op : Op) (h : WF w) : WF (step w op).1 := step_WF w op h
+
+/-- **C01_mutation_faithful**: on a well-formed world no call of the alphabet ever reaches a failing
+check inside its mutation phase: once the up-front validation has passed, every guarded primitive
+(`setInput`, `attachOutput`, `detachLast`, `ioInsert`, `ioRemoveAt`, `initPut`, `initDel`, `nodeLink`,
+`nodeUnlink`, the naming steps) takes its effect branch — the model's mutation is the sequence of the
+Python's unguarded writes.  `late` counts the checks that fail after a write; `guardOp` turns a moved
+`late` into a raise that keeps the partially written world (so `C01_step` also covers such states, and
+`C06_atomic` is this theorem's corollary). -/
+theorem C01_mutation_faithful (w : World) (hw : WF w) (op : Op) : (step w op).1.late = w.late :=
+  step_late w hw op
+
+/-- the composite `rename_values` as well -/
+theorem C01_rename_faithful (w : World) (hw : WF w) (vs : List Nat) (names : List String) :
+    (renameValues w vs names).1.late = w.late := renameValues_late w hw vs names
 
 /-- **C01_step_conv**: the composite calls (`convenience.replace_all_uses_with`, `rename_values`,
 `replace_nodes_and_values`) preserve the invariant as well — including the intermediate state they
@@ -128,13 +143,13 @@ theorem C01_node_sequence_history (ops : List LinkedSet.Op) :
 the sequence) — so `I_node`, proved of the abstract list, holds of the pointer-level container that
 simulates it step by step. -/
 theorem C01_graph_calls_use_seq (w : World) (hw : WF w) (g : Nat) :
-    (∀ n, nodeAddable w g n = true →
+    (∀ n, nodeAcceptable w g n = true →
       ((graphAppend w g n).1.gr g).nodes = (seqApply (w.gr g).nodes (.append n)).1) ∧
-    (∀ ns, ns.all (nodeAddable w g) = true →
+    (∀ ns, ns.all (nodeAcceptable w g) = true →
       ((graphExtend w g ns).1.gr g).nodes = (seqApply (w.gr g).nodes (.extend ns)).1) ∧
-    (∀ a ns, (w.node a).graph = some g → ns.all (nodeAddable w g) = true →
+    (∀ a ns, (w.node a).graph = some g → ns.all (nodeAcceptable w g) = true →
       ((graphInsertAfter w g a ns).1.gr g).nodes = (seqApply (w.gr g).nodes (.insertAfter a ns)).1) ∧
-    (∀ a ns, (w.node a).graph = some g → ns.all (nodeAddable w g) = true →
+    (∀ a ns, (w.node a).graph = some g → ns.all (nodeAcceptable w g) = true →
       ((graphInsertBefore w g a ns).1.gr g).nodes = (seqApply (w.gr g).nodes (.insertBefore a ns)).1) ∧
     (∀ n, (w.node n).graph = some g →
       ((graphRemove w g [n] false).1.gr g).nodes = (seqApply (w.gr g).nodes (.remove n)).1) :=
